@@ -154,7 +154,7 @@ class Tracer:
         if "rawptr" in rv:
             return simplify(("ref", self.place(rv["rawptr"])))
         if "cast" in rv:
-            return ("cast", rv["kind"], self.operand(rv["cast"]))
+            return ("cast", rv["kind"], self.operand(rv["cast"]), rv["ty"])
         if "binop" in rv:
             return ("binop", rv["binop"], self.operand(rv["a"]), self.operand(rv["b"]))
         if "unop" in rv:
@@ -203,7 +203,7 @@ class Tracer:
         if k == "downcast":
             return simplify(("downcast", t[1], self.norm(t[2], depth + 1)))
         if k == "cast":
-            return ("cast", t[1], self.norm(t[2], depth + 1))
+            return ("cast", t[1], self.norm(t[2], depth + 1)) + tuple(t[3:])
         if k == "discr":
             return ("discr", self.norm(t[1], depth + 1))
         if k == "phi":
